@@ -82,6 +82,52 @@ WITNESS_NEGOTIATED = {
             ["create", "A", {"id": 200, "label": "neg", "negotiated": True, "ordered": True}],
             ["close", "B", 0]],
 }
+
+
+def directed_lifecycle_cases():
+    """Systematic small programs: every kind of channel (automatic id, explicit id, partially reliable, negotiated on both
+    sides) created at every stage of the association set-up (before start, after k datagrams of the handshake,
+    established) by either side, then - nothing / close() at once / close() after the flush task / a send and close() -
+    and the canonical continuation. Cheap, always run: the random programs reach these corners only by luck."""
+    kinds = [("auto", dict(label="auto", ordered=True)),
+             ("explicit", None),
+             ("pr", dict(label="pr", ordered=False, maxRetransmits=0)),
+             ("negotiated", dict(label="neg", negotiated=True, id=40, ordered=True))]
+    out = []
+    n = 0
+    for kname, params in kinds:
+        for stage in range(0, 7):            # 0: before start; 1..5: after start + (stage-1) handshake deliveries; 6: healed
+            for side in "AB":
+                for action in ("none", "close", "task-close", "close-create"):
+                    n += 1
+                    p = dict(params) if params is not None else dict(label="id", id=31 if side == "A" else 30, ordered=True)
+                    ops = []
+                    pre = [["start", "A"], ["start", "B"]]
+                    if stage >= 1:
+                        ops += pre
+                        order = ["B", "A", "B", "A"]
+                        for k in range(min(stage - 1, 4)):
+                            ops.append(["deliver", order[k], 0])
+                        if stage == 6:
+                            ops.append(["heal"])
+                    ops.append(["create", side, p])
+                    if kname == "negotiated":
+                        ops.append(["create", "B" if side == "A" else "A", dict(p)])
+                    if action == "close":
+                        ops.append(["close", side, 0])
+                    elif action == "task-close":
+                        ops += [["task", side], ["close", side, 0]]
+                    elif action == "close-create":
+                        # close at once, then a second channel of the same kind (the id must be free again)
+                        ops.append(["close", side, 0])
+                        ops.append(["create", side, dict(p, label="again") if kname != "negotiated" else dict(label="auto2")])
+                    if stage == 0:
+                        ops += pre
+                    out.append({"tagA": 100 + n, "tagB": 5000 + n, "tsnA": 10 * n, "tsnB": 2**32 - 3 - n, "profile": "directed",
+                                "wrap": False, "ops": ops})
+    return out
+
+
 # regression seeds for the mutations listed in notes/C13.md
 WITNESS_EARLY_STOP = {
     "tagA": 3, "tagB": 4, "tsnA": 10, "tsnB": 20, "profile": "life2", "wrap": False,
@@ -441,7 +487,8 @@ class World(S.WorldComponent):
     oracles = [S.oracle_no_crash, oracle_c13_local, oracle_c13_extra, S.oracle_c01, S.oracle_c06]
 
     def corpus(self):
-        return [WITNESS_NEGOTIATED, WITNESS_OPEN_AFTER_CLOSE, WITNESS_EARLY_STOP, WITNESS_THRESHOLD, WITNESS_COOKIE_DUP] + super().corpus()
+        return ([WITNESS_NEGOTIATED, WITNESS_OPEN_AFTER_CLOSE, WITNESS_EARLY_STOP, WITNESS_THRESHOLD, WITNESS_COOKIE_DUP]
+                + super().corpus() + directed_lifecycle_cases())
 
     def cases(self, rng, tier):
         n, steps = self.quick if tier == "quick" else self.thorough
